@@ -632,7 +632,7 @@ let parse_certs (s : Stdlib.String.t) : cert list =
     | [] -> List.rev acc
     | _ ->
       (match tok t with
-       | "L" -> let h = tz_ t in let b = tz_ t in let f = parse_facts t in go (CLoop (h, b, f) :: acc)
+       | "L" -> let h = tz_ t in let b = tz_ t in let f = parse_facts t in let x = parse_facts t in go (CLoop (h, b, f, x) :: acc)
        | "F" -> let f = parse_facts t in go (CIf f :: acc)
        | x -> failwith ("bad cert " ^ x)) in
   go []
